@@ -17,6 +17,10 @@ var conns int64
 
 type dialFunc func(network, address string) (net.Conn, error)
 
+// wsSwitchingProtocols is how the response to a successful
+// websocket handshake starts.
+var wsSwitchingProtocols = []byte("HTTP/1.1 101")
+
 // newWSHandler returns an HTTP handler which forwards data between
 // an incoming and outgoing websocket connection. It checks whether
 // the handshake was completed successfully before forwarding data
@@ -70,8 +74,9 @@ func newWSHandler(host string, dial dialFunc, conn gkm.Gauge) http.Handler {
 			return
 		}
 
-		n, err := out.Read(b)
-		if err != nil {
+		// the status line may arrive in more than one piece
+		n, err := io.ReadAtLeast(out, b, len(wsSwitchingProtocols))
+		if n == 0 {
 			log.Printf("[ERROR] Error reading handshake for %s: %s", r.URL, err)
 			http.Error(w, "error reading handshake", http.StatusInternalServerError)
 			return
@@ -86,7 +91,7 @@ func newWSHandler(host string, dial dialFunc, conn gkm.Gauge) http.Handler {
 
 		// https://tools.ietf.org/html/rfc6455#section-1.3
 		// The websocket server must respond with HTTP/1.1 101 on successful handshake
-		if !bytes.HasPrefix(b, []byte("HTTP/1.1 101")) {
+		if !bytes.HasPrefix(b, wsSwitchingProtocols) {
 			firstLine := strings.SplitN(string(b), "\n", 1)
 			log.Printf("[INFO] Websocket upgrade failed for %s: %s", r.URL, firstLine)
 			http.Error(w, "websocket upgrade failed", http.StatusInternalServerError)
